@@ -511,7 +511,9 @@ class Ctx:
         if not ev["coverage"]["samples"]:
             ev["coverage"]["samples"] = ["(no cases explored: proof obligations only)"]
         # evidence/ always describes /repo; runs against another tree (VERIF_REPO) write elsewhere
-        evdir = os.path.join(VERIF, "evidence") if REPO == "/repo" else os.path.join(CACHE, "evidence-" + repo_tag())
+        # (a --replay run re-examines one stored input: it must not replace the evidence of a full run)
+        evdir = (os.path.join(VERIF, "evidence") if REPO == "/repo" and not getattr(self, "replay_file", None)
+                 else os.path.join(CACHE, "evidence-" + (repo_tag() if REPO != "/repo" else "replay")))
         os.makedirs(evdir, exist_ok=True)
         with open(os.path.join(evdir, self.pid + ".json"), "w") as f:
             json.dump(ev, f, indent=1, default=str)
